@@ -65,12 +65,12 @@ class _TabulationCutoff(object):
     dr = _get_or_none(self._dr_attr, cp_tabulation_section, float)
     cutoff = _get_or_none(self._cutoff_attr, cp_tabulation_section, float)
 
-    if nr and dr and cutoff:
+    if not nr is None and not dr is None and not cutoff is None:
       raise ConfigParserException("'{cutoff}', '{nr}' and '{dr}' cannot all be spcified in [Tabulation] section of potential definition.".format(**self._template_dict))
-    elif nr and dr:
+    elif not nr is None and not dr is None:
       # Set cutoff
       cutoff = (nr-1)*dr      
-    elif cutoff and dr:
+    elif not cutoff is None and dr:
       # Set nr
       nr = (cutoff/dr) + 1
       # cutoff/dr of a cutoff that is a whole multiple of dr can fall just below the
